@@ -153,7 +153,7 @@ def _one(case):
 def run(tier):
   ck = Check('C12', tier)
   ck.prove('props/C12.v', gen_targets=searchfam.GEN_TARGETS_ALL)
-  n = 100 if tier == 'quick' else 1500
+  n = common.sz(tier, 100, 1500)
   cases = []
   for i in range(n):
     c = search.gen_case(ck.seed * 100003 + 12 * 1009 + i, tier, max_geos=5)
@@ -163,7 +163,7 @@ def run(tier):
     cases.append(c)
   # geos whose required impacts are exactly tied (series that differ by a constant) competing for the last n_geos_max slot:
   # which one survives must not depend on their names
-  for j in range(6 if tier == 'quick' else 60):
+  for j in range(common.sz(tier, 6, 60)):
     c = search.gen_case(ck.seed * 100003 + 12 * 1009 + 5000 + j, tier, max_geos=5)
     rng = random.Random(ck.seed + 5000 + j)
     nd = len(c['rows'][0])
